@@ -187,7 +187,8 @@ class ShapeDomain(Domain):
             if name in ('dtype',):
                 return Scalar()
             if name == 'size':
-                return Scalar()
+                syms = [d for d in v.dims if d != 1]
+                return Dim(syms[0]) if len(syms) == 1 and isinstance(syms[0], str) else Scalar()
             if name == 'T':
                 return Sh(tuple(reversed(v.dims)))
             if name in ('real', 'imag'):
@@ -224,6 +225,8 @@ class ShapeDomain(Domain):
                 return Sh(('*'.join(str(x) for x in sym) if len(sym) != 1 else sym[0],)) if sym else Sh((1,))
             if name == 'reshape':
                 shp = args[0] if len(args) == 1 else Tup(args)
+                if isinstance(shp, (Const, Dim)) and not isinstance(getattr(shp, 'v', None), (tuple, list)):
+                    shp = Tup([shp])                       # reshape(-1) / reshape(n)
                 if isinstance(shp, Tup) and all(isinstance(d, (Const, Dim)) for d in shp.items):
                     new = [d.n if isinstance(d, Dim) else d.v for d in shp.items]
                     if new.count(-1) == 1:
